@@ -7,7 +7,11 @@
 //! actor as a joined member, and `user_can_trigger_room_notification` must equal the
 //! `sender_notification_permission` push condition.
 
-use engine::{catch, parse_args, par_shards, replay_and_exit, Report, Tally};
+use engine::{
+    catch, parse_args, par_shards, replay_and_exit,
+    spec::redaction::{redact_content, RefRedact},
+    Report, Tally,
+};
 use mc_stateres::{
     pdu::Ev,
     world::{self, real_auth, Pl, Room, CREATOR, SENDER, TARGET},
@@ -15,12 +19,14 @@ use mc_stateres::{
 use ruma_common::{
     push::{FlattenedJson, PushCondition, PushConditionPowerLevelsCtx, PushConditionRoomCtx},
     serde::Raw,
-    UserId,
+    RoomVersionId, UserId,
 };
 use ruma_events::{
     room::power_levels::{
         NotificationPowerLevelType, PowerLevelAction, PowerLevelUserAction, RoomPowerLevels, RoomPowerLevelsEventContent,
+        SyncRoomPowerLevelsEvent,
     },
+    RedactContent,
     MessageLikeEventType, StateEventType,
 };
 use serde_json::{json, Value};
@@ -79,14 +85,67 @@ fn member(target: &str, membership: &str) -> Ev {
     world::ev("$new:s1", SENDER, "m.room.member", Some(target), json!({"membership": membership}))
 }
 
+/// The helpers as a client obtains them when the room's power-levels event has been redacted, and the
+/// content the authorization rules then read (reference redaction of the content for that version):
+/// (a) typed content -> `RedactContent::redact` -> `RoomPowerLevels`; (b) the redacted JSON as it
+/// arrives on the wire -> `SyncRoomPowerLevelsEvent` (redacted variant) -> `power_levels()`; both must
+/// be the same helper object.
+fn redacted_helpers(v: u8, pl: &Value, out: &mut Vec<(String, String)>) -> Option<(RoomPowerLevels, Value)> {
+    let RefRedact::Must(red) = redact_content(v, "m.room.power_levels", pl.as_object()?) else { return None };
+    let red = Value::Object(red);
+    let rules = RoomVersionId::try_from(v.to_string().as_str()).ok()?.rules()?;
+    let typed: RoomPowerLevelsEventContent = serde_json::from_value(pl.clone()).ok()?;
+    let a: RoomPowerLevels = match catch(|| typed.redact(&rules.redaction)) {
+        Ok(r) => r.into(),
+        Err(p) => {
+            out.push(("panic/redact-content".into(), p.text));
+            return None;
+        }
+    };
+    let wire = json!({
+        "type": "m.room.power_levels", "state_key": "", "event_id": "$pl:s1", "sender": CREATOR,
+        "origin_server_ts": 1, "content": red,
+        "unsigned": {"redacted_because": {"type": "m.room.redaction", "event_id": "$r:s1", "sender": CREATOR,
+            "origin_server_ts": 2, "redacts": "$pl:s1", "content": {"redacts": "$pl:s1"}}},
+    });
+    match serde_json::from_value::<SyncRoomPowerLevelsEvent>(wire) {
+        Ok(ev) => {
+            if !matches!(ev, SyncRoomPowerLevelsEvent::Redacted(_)) {
+                out.push((format!("redacted-wire/v{v}/not-the-redacted-variant"), format!("content {red}")));
+            }
+            let b = ev.power_levels();
+            if format!("{a:?}") != format!("{b:?}") {
+                out.push((
+                    format!("redacted-helpers-differ/v{v}"),
+                    format!("redact() gives {a:?}, the redacted event from the wire gives {b:?}; original content {pl}"),
+                ));
+            }
+        }
+        Err(e) => out.push((format!("redacted-wire/v{v}/rejected"), format!("{e}; content {red}"))),
+    }
+    Some((a, red))
+}
+
 fn eval(case: &Case, t: &mut Tally) -> Vec<(String, String)> {
     let mut out = vec![];
-    let v = case.v;
     let Some(h) = helpers(&case.pl) else {
         t.unspecified += 1;
         t.outcome("helpers", "content rejected by the typed deserializer");
         return out;
     };
+    out.extend(eval_path(case, "", h, t));
+    // the same questions when the power-levels event in the room state is a redacted one
+    if let Some((h, red)) = redacted_helpers(case.v, &case.pl, &mut out) {
+        t.outcome("path", "redacted");
+        let c2 = Case { v: case.v, pl: red, family: case.family };
+        out.extend(eval_path(&c2, "redacted/", h, t));
+    }
+    out
+}
+
+fn eval_path(case: &Case, path: &str, h: RoomPowerLevels, t: &mut Tally) -> Vec<(String, String)> {
+    let mut out = vec![];
+    let v = case.v;
     let actor = <&UserId>::try_from(SENDER).unwrap();
     let target = <&UserId>::try_from(TARGET).unwrap();
     let mut cmp = |name: &str, helper: bool, auth: Result<bool, String>, ctx: String, t: &mut Tally| match auth {
@@ -95,7 +154,7 @@ fn eval(case: &Case, t: &mut Tally) -> Vec<(String, String)> {
             t.nontrivial += 1;
             if a != helper {
                 out.push((
-                    format!("{name}/v{v}/helper-{}-auth-{}", helper, a),
+                    format!("{path}{name}/v{v}/helper-{}-auth-{}", helper, a),
                     format!("{name}: helper says {helper}, auth_check says {a}; {ctx}; power_levels {}", case.pl),
                 ));
             }
@@ -220,7 +279,7 @@ fn eval(case: &Case, t: &mut Tally) -> Vec<(String, String)> {
                     let thr = num(case.pl.get("notifications").and_then(|n| n.get("room"))).unwrap_or(50);
                     if (lvl >= thr) != push {
                         out.push((
-                            format!("sender_notification_permission/v{v}/push-{push}-spec-{}", lvl >= thr),
+                            format!("{path}sender_notification_permission/v{v}/push-{push}-spec-{}", lvl >= thr),
                             format!("push condition {push}, spec reading level {lvl} vs notifications.room {thr}; power_levels {}", case.pl),
                         ));
                     }
@@ -233,7 +292,7 @@ fn eval(case: &Case, t: &mut Tally) -> Vec<(String, String)> {
                     }
                     if push != helper {
                         out.push((
-                            format!("user_can_trigger_room_notification/v{v}/helper-{helper}-push-{push}"),
+                            format!("{path}user_can_trigger_room_notification/v{v}/helper-{helper}-push-{push}"),
                             format!("helper {helper}, push condition {push}; power_levels {}", case.pl),
                         ));
                     }
@@ -349,7 +408,9 @@ fn main() {
          events_default, state_default, events[T] / notifications.room) x users_default {absent,-1,50} x actor entry {absent,-1,0,49,50,51} \
          x target entry {absent,49,50,51} x encodings {int; before v10 also \"50\" and \" +50 \"} x the target memberships each action applies \
          to: helper answer == real auth_check(..).is_ok() on the corresponding minimal event from the joined actor; for_user through a \
-         threshold sweep; user_can_trigger_room_notification == sender_notification_permission push condition. state = one \
+         threshold sweep; user_can_trigger_room_notification == sender_notification_permission push condition; every case a second \
+         time with the power-levels event redacted (helpers from RedactContent::redact and from the redacted event as deserialized \
+         from the wire, which must be equal; room state = reference redaction of the content for that version). state = one \
          (version, content) pair; transition = one real auth_check / push condition evaluation; non-trivial = one helper-vs-auth comparison",
     );
     report.assume("string levels from v10 are outside the property's quantifier (the auth rules reject the whole power_levels event)");
